@@ -14,7 +14,7 @@ TRUSTED_BASE = ["Model/Rfb.v handshake handlers hand-written; formats/constants 
                 "DES / AES / MD5 of the responses are not judged here (C14)"]
 ASSUMPTIONS = ["server version >= 3.3 (below that no supported version exists and the client raises)",
                "causal server: after a challenge that the client does not answer the stream ends"]
-EXTRA_VO = ["Proofs/RfbTie.vo"]
+EXTRA_VO = ["Proofs/RfbTieHandshake.vo"]
 
 
 def check_handshake(variant, cfg, s, r):
